@@ -408,7 +408,13 @@ def gen_case(rng, cls_name, tier):
         if rng.random() < 0.35:
             c.append(['remove_model', rng.randrange(3)])
         conts[str(p)] = c
-    return {'cls': cls_name, 'via_factory': rng.random() < 0.4, 'states': specs, 'paths': paths, 'initial': initial,
+    roots, gens = {}, {}
+    for p in range(hl + 1):
+        r = rng.random()
+        if r < 0.45:
+            roots[str(p)] = [rng.choice(['model', 'model', 'models', 'model+machine']), rng.randrange(3)]
+        gens[str(p)] = rng.choice([1, 1, 1, 2, 2, 3])
+    return {'roots': roots, 'gens': gens, 'cls': cls_name, 'via_factory': rng.random() < 0.4, 'states': specs, 'paths': paths, 'initial': initial,
             'events': events, 'transitions': trans, 'opts': opts, 'models': models, 'ctx_mode': ctx_mode,
             'model_ctx': model_ctx, 'history': hist, 'conts': conts, 'protocol': rng.choice([2, 3, 4, 5]),
             'plain': rng.random() < 0.3, 'lockprobe': locked and ctx_mode == 'default' and rng.random() < (0.5 if tier == 'quick' else 0.7)}
@@ -726,7 +732,8 @@ def interesting_objects(rig):
     mach = rig.machine
     out = []
     for i, m in enumerate(rig.models):
-        out.append((m, 1 + i))
+        if m is not None:
+            out.append((m, 1 + i))
     for j, c in enumerate(mach.__dict__.get('machine_context', [])):
         out.append((c, 10 + j))
     n = 20
@@ -890,18 +897,76 @@ class Fail(Exception):
     pass
 
 
-def pickle_copy(case, rigA):
-    """C = pickle.loads(pickle.dumps(A)); returns (rig of the copy, identity pairs [(orig obj, copy obj)])"""
+def machine_of(model):
+    """recover the machine from one of its models: through the partials the machine bound on it"""
+    import functools
+    from transitions.core import Machine, Event
+
+    def scan(x, depth):
+        if isinstance(x, Machine):
+            return x
+        if isinstance(x, Event):
+            return x.machine
+        if depth > 8:
+            return None
+        if isinstance(x, functools.partial):
+            for y in (x.func,) + tuple(x.args):
+                r = scan(y, depth + 1)
+                if r is not None:
+                    return r
+            return None
+        owner = getattr(x, '__self__', None)
+        return scan(owner, depth + 1) if owner is not None else None
+    if isinstance(model, Machine):
+        return model
+    for v in list(model.__dict__.values()):
+        r = scan(v, 0)
+        if r is not None:
+            return r
+    return None
+
+
+def root_payload(rig, root):
+    """what is handed to pickle.dumps: the machine, or — pickling THROUGH a model — model i alone, the list of
+    models starting at model i, or (model i, machine); the machine is then reached through the model's partials and
+    its __setstate__ runs while that model is still an empty shell"""
+    mach = rig.machine
+    if not root or root[0] == 'machine' or not mach.models:
+        return 'machine', mach
+    i = root[1] % len(mach.models)
+    m = mach.models[i]
+    if root[0] == 'model':
+        return 'model', m
+    if root[0] == 'models':
+        return 'models', list(mach.models[i:]) + list(mach.models[:i])
+    return 'model+machine', (m, mach)
+
+
+def machine_from_payload(form, P):
+    if form == 'machine':
+        return P
+    if form == 'model':
+        return machine_of(P)
+    if form == 'models':
+        return machine_of(P[0])
+    return P[1]
+
+
+def pickle_copy(case, rigA, root=None):
+    """C = pickle.loads(pickle.dumps(<root>)); returns (rig of the copy, identity pairs [(orig obj, copy obj)])"""
     A = rigA.machine
-    objs = [o for o, _n in interesting_objects(rigA)]
+    form, payload = root_payload(rigA, root)
     if case['plain']:
-        C = pickle.loads(pickle.dumps(A, protocol=case['protocol']))
+        P = pickle.loads(pickle.dumps(payload, protocol=case['protocol']))
+        C = machine_from_payload(form, P)
+        if C is None:
+            raise Fail('the machine cannot be recovered from the unpickled model')
         # the identity map, positionally (models registered with the machine and machine contexts only)
         pairs = []
         posA = {id(m): i for i, m in enumerate(A.models)}
         cm = []
         for m in rigA.models:
-            if id(m) in posA:
+            if m is not None and id(m) in posA:
                 cm.append(C.models[posA[id(m)]])
                 pairs.append((m, cm[-1]))
             else:
@@ -913,10 +978,14 @@ def pickle_copy(case, rigA):
         # per-model contexts are not locatable positionally: plain cases have none (see gen_case / run_case)
         rigC = Rig(C, [m for m in cm], mctx, [[] for _ in rigA.mdl_ctx])
         return rigC, pairs
-    C, cobjs = pickle.loads(pickle.dumps((A, objs), protocol=case['protocol']))
+    objs = [o for o, _n in interesting_objects(rigA) if o is not None]
+    P, C, cobjs = pickle.loads(pickle.dumps((payload, A, objs), protocol=case['protocol']))
+    via = machine_from_payload(form, P)
+    if via is not None and via is not C:
+        raise Fail('the machine reached through the unpickled model is not the unpickled machine')
     pairs = list(zip(objs, cobjs))
     mp = {id(o): c for o, c in pairs}
-    rigC = Rig(C, [mp[id(m)] for m in rigA.models], [mp[id(c)] for c in rigA.mctx],
+    rigC = Rig(C, [None if m is None else mp[id(m)] for m in rigA.models], [mp[id(c)] for c in rigA.mctx],
                [[mp[id(c)] for c in l] for l in rigA.mdl_ctx])
     return rigC, pairs
 
@@ -973,10 +1042,23 @@ def run_case(case, want_requests=True):
         for o, n in interesting_objects(A):
             numb.add(o, n)
         tabA = tables_of(A, numb, sti)
+        root = case.get('roots', {}).get(str(p))
+        gens = max(1, int(case.get('gens', {}).get(str(p), 1)))
+        stats['gen%d' % min(gens, 3)] = stats.get('gen%d' % min(gens, 3), 0) + 1
+        stats['root_' + (root[0] if root else 'machine')] = stats.get('root_' + (root[0] if root else 'machine'), 0) + 1
         try:
-            C, pairs = pickle_copy(case, A)
+            # a copy is itself a machine in a reachable state: copy-of-copy chains are judged like first copies
+            src = A
+            for _g in range(gens - 1):
+                mid, prs = pickle_copy(case, src, root)
+                for o, c in prs:
+                    if c is not None:
+                        numb.add(c, numb.by_id[id(o)] + 100)
+                src = mid
+            tabSrc = tabA if src is A else tables_of(src, numb, sti)
+            C, pairs = pickle_copy(case, src, root)
         except Exception as e:   # noqa: BLE001
-            fail('monitor', 'not-picklable', 'prefix %d: %s: %s' % (p, type(e).__name__, e))
+            fail('monitor', 'not-picklable', 'prefix %d (root %r, generation %d): %s: %s' % (p, root, gens, type(e).__name__, e))
             break
         rho = []
         for o, c in pairs:
@@ -1110,11 +1192,12 @@ def run_case(case, want_requests=True):
         # correspondence with the Lean model
         if want_requests:
             g, nested, locked, asy = FLAGS[case['cls']]
-            nums = [1] + kind_of(case) + enc_tables(tabA) + [len(rho)] + [x for e in rho for x in e] + [0]
+            nums = [1] + kind_of(case) + enc_tables(tabSrc) + [len(rho)] + [x for e in rho for x in e] + [0]
             nums += [len(lean_delta)] + [x for e in lean_delta for x in e]
             nums += [len(lean_events)] + [x for e in lean_events for x in e]
             stats['lean_steps'] += len(lean_events)
             reqs.append({'p': p, 'nums': nums, 'R': tabC0, 'O': lean_obs, 'F': lean_tabs,
+                         'graph_presence_only': bool(root and root[0] != 'machine'),
                          'recctx': sorted(numb.num(c) for c in ctx_objects(C))})
     # (c) the other direction: whatever the original did after a snapshot never shows on that copy
     for p, C, fpc, rc in copies:
@@ -1235,7 +1318,12 @@ def compare_model(case, req, ans):
     recctx = set(req['recctx'])
 
     def norm(t):
-        return {k: [list(e) if isinstance(e, (list, tuple)) else e for e in v] for k, v in t.items()}
+        t = {k: [list(e) if isinstance(e, (list, tuple)) else e for e in v] for k, v in t.items()}
+        if req.get('graph_presence_only'):
+            # pickled through a model: the machine's __setstate__ ran while that model was an empty shell, its
+            # regenerated graph has no active state yet (by design of _get_graph) — compare the keys only
+            t['graphs'] = [[e[0], 1] for e in t['graphs']]
+        return t
     if norm(r) != norm(req['R']):
         out.append('tables after unpickling: model %r, implementation %r' % (r, req['R']))
     obs_m = []
@@ -1340,17 +1428,29 @@ def corpus_cases():
 
 def shrink_steps(case):
     h = case['history']
+    def shifted(d, i):
+        out = {}
+        for k, v in d.items():
+            q = int(k)
+            if q <= i:
+                out[str(q)] = v
+            elif q > i + 1:
+                out[str(q - 1)] = v
+        return out
     for i in range(len(h) - 1, -1, -1):
         c = copy.deepcopy(case)
         del c['history'][i]
-        conts = {}
-        for k, v in case['conts'].items():
-            p = int(k)
-            if p <= i:
-                conts[str(p)] = v
-            elif p > i + 1:
-                conts[str(p - 1)] = v
-        c['conts'] = conts
+        for key in ('conts', 'roots', 'gens'):
+            c[key] = shifted(case.get(key, {}), i)
+        yield c
+    for k, g in sorted(case.get('gens', {}).items()):
+        if g > 1:
+            c = copy.deepcopy(case)
+            c['gens'][k] = g - 1
+            yield c
+    for k in sorted(case.get('roots', {})):
+        c = copy.deepcopy(case)
+        del c['roots'][k]
         yield c
     for k in sorted(case['conts']):
         if len(case['conts']) > 1:
@@ -1434,7 +1534,9 @@ class C15(runner.Check):
             'models incl. the machine as its own model (models know a peer: in a quarter of the cases, and most '
             "queued='model' cases, callbacks fire events on the OTHER model and on their own model from inside a "
             'running event, awaited from coroutine callbacks on the async classes) x history of 0-7 triggers/auto transitions/add_states/'
-            'add_transition/add_model/remove_model, snapshot by pickle at EVERY prefix, each followed by a random '
+            'add_transition/add_model/remove_model, snapshot by pickle at EVERY prefix (root of the pickle: the machine, or '
+            '- 45% - one of its models alone / the rotated list of models / (model, machine), for every model position; '
+            '1-3 pickle generations, copy of copy), each followed by a random '
             'continuation of 1-6 items on the copy and on a fresh control; all 12 predefined classes in equal shares, '
             '40% through MachineFactory.get_predefined; non-trivial = at least two snapshots and one executed transition '
             'in a continuation; distinct = different case description')
@@ -1447,7 +1549,15 @@ class C15(runner.Check):
         return ['callbacks are given by name (model method names or dotted paths); callables that pickle cannot '
                 'serialise by reference (lambdas, closures) are outside the property',
                 'model classes are importable and hashable by identity (LockedMachine.__getstate__ uses models as dict keys)',
-                'snapshots are taken at quiescent points only (no event in progress, queues empty)',
+                'snapshots are taken at quiescent points only (no event in progress, queues empty). A snapshot taken '
+                'INSIDE a callback is outside the statement and not generated: it carries IdentManager.current (the '
+                'pickling thread then runs the copy of a locked machine without entering contexts) and, for hierarchical '
+                'machines pickled inside a nested scope, a non-empty scope stack — both by reading, both consequences of '
+                'pickling an event in progress',
+                'a copy is itself a machine in a reachable state: copy-of-copy(-of-copy) chains are judged like first '
+                'copies; pickling THROUGH a model (pickle.dumps(model), [models], (model, machine)) is pickling the '
+                'machine and is judged the same way, except that the graph of the root model may lack the active mark '
+                '(its state attribute does not exist yet when GraphMachine.__setstate__ runs; by design of _get_graph)',
                 '"same options" is read as: every constructor option observable on the instance; graph styling other than the '
                 'active state (previous-transition marks) is regenerated by design and not compared',
                 'machine.remove_model on the copy is treated as part of "reacts like the original" (it raised KeyError '
